@@ -25,13 +25,22 @@ def load_prop(pid):
 
 
 def load_known():
+    """known_findings.txt: 'fixed: property=<id> <commit> <what>' (informational, suppresses nothing) and
+    'open: {json}' lines."""
     out = []
-    p = os.path.join(VERIF, "known_findings.jsonl")
+    p = os.path.join(VERIF, "known_findings.txt")
     if os.path.exists(p):
         for line in open(p):
             line = line.strip()
-            if line and not line.startswith("#"):
-                out.append(json.loads(line))
+            if line.startswith("open:"):
+                k = json.loads(line[5:].strip())
+                k["status"] = "open"
+                out.append(k)
+            elif line.startswith("fixed:"):
+                import re
+                m = re.match(r"fixed:\s+property=(\S+)\s+(\S+)\s+(.*)", line)
+                if m:
+                    out.append(dict(status="fixed", property=m.group(1), commit=m.group(2), what=m.group(3)))
     return out
 
 
@@ -62,6 +71,9 @@ def main_check(pid, tier, seed):
     known = [k for k in load_known() if k["property"] == pid]
     open_k = [k for k in known if k.get("status") == "open"]
     units = [u for u in mod.UNITS if tier in u.get("in_tiers", ("quick", "thorough"))]
+    only = os.environ.get("VERIF_ONLY")   # development aid: no evidence is written
+    if only:
+        units = [u for u in units if only in u["name"]]
     # open known findings exclude their zone by a define on the unit
     for k in open_k:
         for u in units:
@@ -74,7 +86,7 @@ def main_check(pid, tier, seed):
         with cf.ThreadPoolExecutor(max_workers=max(1, min(len(units), R.NCPU))) as ex:
             futs = [ex.submit(R.run_unit, u, tier, scratch) for u in units]
             # native checks (known-finding witnesses, fidelity, native oracles) in parallel with cbmc
-            nat_fut = ex.submit(_native_checks, mod, tier, seed, scratch, open_k)
+            nat_fut = ex.submit(_native_checks, mod, tier, seed, scratch, open_k if not only or only == "native" else None)
             for f in futs:
                 results.append(f.result())
             nat = nat_fut.result()
@@ -124,7 +136,8 @@ def main_check(pid, tier, seed):
             print("KNOWN-FINDING: property=%s %s" % (pid, kf))
         for l in lines:
             print(l)
-        write_evidence(pid, mod, tier, seed, results, nat, time.time() - t0, violations, known)
+        if not only:
+            write_evidence(pid, mod, tier, seed, results, nat, time.time() - t0, violations, known)
         _summary(pid, results, nat, time.time() - t0, rc)
     finally:
         if not os.environ.get("VERIF_KEEP"):
@@ -146,6 +159,8 @@ def _native_checks(mod, tier, seed, scratch, open_k):
     """mod.NATIVE: list of dict(name, driver, args(tier,seed)->list, link_ompl, known_id?)
     driver exit 0 = held, 1 = violated (stdout explains), else error."""
     out = dict(violations=[], errors=[], known=[], runs=[])
+    if open_k is None:
+        return out
     for nc in getattr(mod, "NATIVE", []):
         if tier not in nc.get("in_tiers", ("quick", "thorough")):
             continue
@@ -165,12 +180,14 @@ def _native_checks(mod, tier, seed, scratch, open_k):
                     print("note: known finding %s no longer reproduces" % kid)
                 elif r["rc"] == 1:
                     out["violations"].append(dict(name=nc["name"], driver=nc["driver"], args=args, output=r["out"][-3000:],
+                                                  link_ompl=nc.get("link_ompl", False), unit_cpps=nc.get("unit_cpps", []),
                                                   replay_cmd="%s %s" % (nc["driver"], " ".join(map(str, args)))))
                 elif r["rc"] != 0:
                     out["errors"].append("%s: rc=%s %s" % (nc["name"], r["rc"], (r["out"] + r["err"])[-500:]))
                 continue
             if r["rc"] == 1:
                 out["violations"].append(dict(name=nc["name"], driver=nc["driver"], args=args, output=r["out"][-3000:],
+                                                  link_ompl=nc.get("link_ompl", False), unit_cpps=nc.get("unit_cpps", []),
                                               replay_cmd="%s %s" % (nc["driver"], " ".join(map(str, args)))))
             elif r["rc"] != 0:
                 out["errors"].append("%s: rc=%s timeout=%s %s" % (nc["name"], r["rc"], r["timeout"], (r["out"] + r["err"])[-500:]))
